@@ -11,7 +11,9 @@ def jStrs? (j : Json) : Option (List String) := do
 
 def bellConfig (j : Json) : Option Config := do
   let api ← (jField? j "api").bind jStr?
-  let nv ← (jField? j "nv").bind jBool?
+  let hwkind ← (jField? j "hwkind").bind jStr?
+  let qubits ← (jField? j "qubits").bind jNat?
+  let nv := singleComm hwkind qubits
   let post ← (jField? j "post").bind jBool?
   let n ← (jField? j "n").bind jNat?
   let expect ← (jField? j "expect").bind jBool?
